@@ -270,6 +270,25 @@ def gen_nexp(rng, w, objs, depth, allow_repeat):
     return rng.choice(GOAL_NUMERALS)
 
 
+def twin_numerals(rng):
+    """two numerals that a rounded / formatted comparison would take for one: equal up to the 4th decimal, rounding to
+    the same 4 decimals from both sides, differing by 1e-7, two spellings of one value, or literally the same"""
+    base = rng.choice(["0.9999", "2.5", "7", "0.1", "-3", "100.0625", "0", "12.34"])
+    whole, _, frac = base.partition(".")
+    stem = whole + "." + (frac + "0000")[:4]
+    kind = rng.choice(["fifth-decimal", "fifth-decimal", "round-to-same", "tiny-difference", "two-spellings", "identical"])
+    if kind == "fifth-decimal":
+        a, b = rng.sample(["1", "2", "3", "4"], 2)
+        return kind, stem + a, stem + b
+    if kind == "round-to-same":
+        return kind, stem + "4", stem[:-1] + str(int(stem[-1]) - 1) + "6" if stem[-1] != "0" else stem + "3"
+    if kind == "tiny-difference":
+        return kind, base, stem + "0001"
+    if kind == "two-spellings":
+        return kind, base, (stem + "0") if "." in base else base + ".0"
+    return kind, base, base
+
+
 def gen_problem(rng, w, d07=False):
     """a valid problem description; d07: fluents may have repeated arguments (finding class D07)"""
     om = getattr(w, "objmap", {})
@@ -323,8 +342,18 @@ def gen_problem(rng, w, d07=False):
         rhs = gen_nexp(rng, w, objs, 2, d07)
         cmp_ = rng.choice(CMPS)
         goal.append(["num", [cmp_, fl, rhs] if rng.random() < 0.75 or not isinstance(rhs, list) else [cmp_, rhs, fl]])
+    twins = None
+    if w.funcs and rng.random() < 0.3:
+        # two numeric goals over the same expression whose constants are nearly (or exactly) the same: both are goals
+        f, ps = rng.choice(w.funcs)
+        args = pick_args(rng, w, objs, ps, forbid_repeat=True)
+        if args is not None:
+            twins, a, b = twin_numerals(rng)
+            cmp_ = rng.choice(CMPS)
+            goal.append(["num", [cmp_, [f] + args, a]])
+            goal.append(["num", [cmp_, [f] + args, b]] if rng.random() < 0.8 else ["num", [cmp_, b, [f] + args]])
     rng.shuffle(goal)
-    return {"name": "prob%d" % rng.randint(0, 99), "domain": domain_name(w), "objects": declared, "arg_objects": objs, "style": style,
+    return {"name": "prob%d" % rng.randint(0, 99), "domain": domain_name(w), "twins": twins, "objects": declared, "arg_objects": objs, "style": style,
             "init": init, "goal": goal, "shadow": bool(shadow)}
 
 
@@ -642,7 +671,8 @@ def build_generated(rng, tier):
                 desc["omit_objects"] = True
             text = G.render(problem_tree(desc), rng, noise=rng.random() < 0.3)
             rep = has_repeat_fluent(desc)
-            cases.append({"text": text, "expect": expected_dump(desc), "kind": "valid-" + desc["style"] + ("-shadowed-constant" if desc.get("shadow") else ""),
+            cases.append({"text": text, "expect": expected_dump(desc), "kind": "valid-" + desc["style"] + ("-shadowed-constant" if desc.get("shadow") else "")
+                          + ("-twin-numeric-goals-" + desc["twins"] if desc.get("twins") else ""),
                           "klass": "D07" if rep else None, "nontrivial": len(desc["init"]) + len(desc["goal"]) >= 2,
                           "desc": desc})
             if rep:
@@ -655,7 +685,7 @@ def build_generated(rng, tier):
                 ctext = G.render(problem_tree(cd), rng, noise=False)
                 cases.append({"text": ctext, "expect": "raised", "kind": "corrupt-" + kind, "klass": klass,
                               "nontrivial": True, "desc": cd})
-            n_dom, n_other, n_pos = (4, 8, 2) if tier == "quick" else (99, 24, 4)
+            n_dom, n_other, n_pos = (3, 7, 2) if tier == "quick" else (99, 24, 4)
             for kind, cd, expect, klass in near_miss_cases(rng, w, desc, n_dom, n_other, n_pos, covered):
                 ctext = G.render(problem_tree(cd), rng, noise=False)
                 cases.append({"text": ctext, "expect": expected_dump(desc) if expect == "same" else expect, "kind": kind,
@@ -968,8 +998,8 @@ def run(args):
             p = write_replay(PROP, "domain_changed_%d" % len(rep.violations), {
                 "kind": "input", "why": "parsing a problem changed how the Domain object presents its functions "
                                         "(str / state_representation / repeating_variables of domain.functions)",
-                "input": {"world": {"domain_text": w.get("domain_text"), "domain_path": w.get("domain_path"), "source": w["source"],
-                                    "cases": [{kk: vv for kk, vv in c.items() if kk != "desc"} for c in w["cases"][:max(k, 0) + 1]]},
+                "input": {"world": dict({kk: vv for kk, vv in w.items() if kk in ("domain_text", "domain_path", "source")},
+                                        cases=[{kk: vv for kk, vv in c.items() if kk != "desc"} for c in w["cases"][:max(k, 0) + 1]]),
                           "implementation": res["domain_changed"]}})
             rep.violation(p, True)
     if domain_failures:
